@@ -169,7 +169,8 @@ class Sim:
                 data = fh.read()
             if "b" in mode:
                 return io.BytesIO(data)
-            text = data.decode(encoding or "utf-8", errors or "strict")
+            enc = "utf-8" if encoding in (None, "locale") else encoding
+            text = data.decode(enc, errors or "strict")
             if newline is None:
                 text = text.replace("\r\n", "\n").replace("\r", "\n")
             return io.StringIO(text)
